@@ -86,6 +86,12 @@ def check(chk):
         _c11._pairing(_RLq(chk, "PAIR.scores", "AGREE.rotation"), tr)
         # ... and the stored sign convention, after the re-sort (shared with C11.SIGN.group.transform)
         _c11._sign_transform(_RLq(chk, "SIGN.group.transform", "AGREE.sign"), tr)
+    # transform treats the two fields alike (cross-set models and their rotators)
+    from .fields import field_symmetry
+    tfns = [m for q in ("xeofs.cross.base_model_cross_set.BaseModelCrossSet", "xeofs.cross.cpcca.CPCCA", "xeofs.cross.cpcca_rotator.CPCCARotator")
+            for m in pm.cls(q).methods.values() if m.name in ("transform", "_transform_algorithm")]
+    nsym = field_symmetry(chk, "AGREE.fields.symmetric", tfns)
+    chk.require(nsym >= 2, f"AGREE.fields.symmetric: only {nsym} two-field transform functions compared")
     _acc(chk)
     chk.floor("SPACE.project", 6)
     chk.floor("AGREE", 6)
